@@ -42,7 +42,8 @@ func checkImage(c *harness.Ctx, v *simdisk.View, pre map[regionsim.Key][]byte, u
 		c.Fail("crash.reopen", "load", "error", "%s: re-opening the file fails: %v", what, err)
 		return false
 	}
-	for k, want := range pre {
+	for _, k := range regionsim.SortedKeys(pre) {
+		want := pre[k]
 		if k == target || unknown[k] {
 			continue
 		}
